@@ -2397,6 +2397,13 @@ def c14_oracle(case, out, model_out):
             want = (",".join(nodes_l), str(len(rest)), rest[-1] if rest else "-", "".join(x + ";" for x in rest))
             if (seen, cnt, last, folded) != want:
                 return "Node::iter() of %r used through next() x%d then for_each / count / last / fold gives %s, the pre-order traversal gives %s" % (m["src"], k, (seen, cnt, last, folded), want)
+    md = re.search(r"mid<([^>]*)>", out)
+    if md and "occ" in m:
+        pre1 = {"R": "r", "W": "", "F": ""}
+        j1 = lambda cls: ",".join(hexs(pre1[c] + nm) for c, nm in m["occ"] if c in cls)
+        want_mid = ";".join([j1("WFR"), j1("WR"), j1("R"), j1("W"), j1("F")])
+        if md.group(1) != want_mid:
+            return "after rewriting only the read variables of %r through iter_read_variable_identifiers_mut, the immutable iterators list %s; the names are now %s" % (m["src"], md.group(1)[:300], want_mid[:300])
     af = re.search(r"after<([^>]*)>", out)
     if af and "occ" in m:
         pre = {"R": "ivr", "W": "ivw", "F": "if"}
